@@ -460,6 +460,13 @@ def run(facts, rep, tier, ctx):
             d = o["key"].split("|")[2]
             if "no copy-up" in d:
                 rep.ob(("A/" if w_.asyncw else "") + "R12.3u", o["fn"], d, o["ok"], o["detail"], o["loc"])
+        # the write layer's own error class survives the overlay's parent materialisation (NotSupported of a read-only layer)
+        scratch = Report("m")
+        c09.materialisation_rules(facts, scratch, w_, "M")
+        for o in scratch.obligations:
+            d = o["key"].split("|")[2]
+            if "propagated" in d:
+                rep.ob(("A/" if w_.asyncw else "") + "R12.3u", o["fn"], d, o["ok"], o["detail"], o["loc"])
         # occupied create_dir through the overlay: file-exists / directory-exists by the type of the entry the union shows
         scratch = Report("v")
         c09.table_u(facts, scratch, w_, "U", only=("create_dir",))
